@@ -552,4 +552,896 @@ theorem mul_mag_bound {l r a b : Int} (hl1 : -a ≤ l) (hl2 : l ≤ a - 1) (hr1 
       have e : (a - 1) * b = a * b - b := by grind
       generalize l * r = p at *; generalize a * b = q at *; omega
 
+/-! ## the digit guards: when a guard is false the overflow it guards is impossible -/
+
+theorem add_le_max_of_digits {L R : IntTy} {l r : Int} (hl : L.InRange l) (hr : R.InRange r)
+    (hd : ¬ max L.digits R.digits + 1 > (usualArith L R).digits) : l + r ≤ (usualArith L R).max := by
+  have ⟨_, h2, _⟩ := range_digits hl
+  have ⟨_, h2', _⟩ := range_digits hr
+  have hp := two_pow_le (show max L.digits R.digits + 1 ≤ (usualArith L R).digits by omega)
+  rw [two_pow_succ] at hp
+  have := two_pow_max_l L.digits R.digits
+  have := two_pow_max_r L.digits R.digits
+  rw [IntTy.max_eq]; omega
+
+theorem add_ge_lowest_of_digits {L R : IntTy} {l r : Int} (hl : L.InRange l) (hr : R.InRange r)
+    (hlT : (usualArith L R).InRange l) (hrT : (usualArith L R).InRange r)
+    (hd : ¬ max L.digits R.digits + 1 > (usualArith L R).digits) : (usualArith L R).lowest ≤ l + r := by
+  have ⟨h1, _, _⟩ := range_digits hl
+  have ⟨h1', _, _⟩ := range_digits hr
+  have hp := two_pow_le (show max L.digits R.digits + 1 ≤ (usualArith L R).digits by omega)
+  rw [two_pow_succ] at hp
+  have := two_pow_max_l L.digits R.digits
+  have := two_pow_max_r L.digits R.digits
+  rw [IntTy.lowest_eq]
+  by_cases hT : (usualArith L R).signed = true
+  · simp only [hT, ite_true]; omega
+  · have hT' : (usualArith L R).signed = false := by simpa using hT
+    have := nonneg_of_unsigned hT' hlT
+    have := nonneg_of_unsigned hT' hrT
+    simp only [hT', Bool.false_eq_true, ite_false]; omega
+
+theorem sub_le_max_of_digits {L R : IntTy} {l r : Int} (hl : L.InRange l) (hr : R.InRange r)
+    (hd : ¬ max L.digits (negDigits R) + 1 > (usualArith L R).digits) : l - r ≤ (usualArith L R).max := by
+  have ⟨_, h2, _⟩ := range_digits hl
+  have ⟨h1', _, h3'⟩ := range_digits hr
+  have hp := two_pow_le (show max L.digits (negDigits R) + 1 ≤ (usualArith L R).digits by omega)
+  rw [two_pow_succ] at hp
+  have := two_pow_max_l L.digits (negDigits R)
+  have := two_pow_max_r L.digits (negDigits R)
+  have := two_pow_pos (max L.digits (negDigits R))
+  rw [IntTy.max_eq]
+  by_cases hRs : R.signed = true
+  · simp only [negDigits, hRs, ite_true] at *; omega
+  · have := h3' (by simpa using hRs); omega
+
+theorem sub_ge_lowest_of_digits {L R : IntTy} {l r : Int} (hl : L.InRange l) (hr : R.InRange r)
+    (hd : ¬ max L.digits R.digits + 1 > (usualArith L R).digits) : (usualArith L R).lowest ≤ l - r := by
+  have ⟨h1, _, _⟩ := range_digits hl
+  have ⟨_, h2', _⟩ := range_digits hr
+  have hp := two_pow_le (show max L.digits R.digits + 1 ≤ (usualArith L R).digits by omega)
+  rw [two_pow_succ] at hp
+  have := two_pow_max_l L.digits R.digits
+  have := two_pow_max_r L.digits R.digits
+  rw [IntTy.lowest_eq]
+  by_cases hT : (usualArith L R).signed = true
+  · simp only [hT, ite_true]; omega
+  · exfalso
+    rcases usualArith_unsigned (by simpa using hT) with ⟨e, _⟩ | ⟨e, _⟩ <;> rw [e] at hd <;> omega
+
+/-- the one digit configuration in which the multiplication guard is too weak: both operand types
+signed and the digit counts add up to exactly the digits of the result (`(-2^a)·(-2^b) = 2^(a+b)`).
+It cannot occur for widths that are multiples of 8. -/
+def MulGuardExact (L R : IntTy) : Prop :=
+  L.signed = true ∧ R.signed = true ∧ L.digits + R.digits = (usualArith L R).digits
+
+instance (L R : IntTy) : Decidable (MulGuardExact L R) := by unfold MulGuardExact; exact inferInstance
+
+theorem mul_inRange_of_digits {L R : IntTy} {l r : Int} (hl : L.InRange l) (hr : R.InRange r)
+    (hlT : (usualArith L R).InRange l) (hrT : (usualArith L R).InRange r) (hg : ¬ MulGuardExact L R)
+    (hd : ¬ L.digits + R.digits > (usualArith L R).digits) : (usualArith L R).InRange (l * r) := by
+  have ⟨h1, h2, h3⟩ := range_digits hl
+  have ⟨h1', h2', h3'⟩ := range_digits hr
+  have hp := two_pow_le (show L.digits + R.digits ≤ (usualArith L R).digits by omega)
+  rw [two_pow_add] at hp
+  have ⟨b1, b2, b3⟩ := mul_mag_bound h1 h2 h1' h2'
+  have ⟨s1, s2, s3, s4⟩ := mul_sign_facts l r
+  have hpa := pow_digits_pos L
+  have hpb := pow_digits_pos R
+  unfold IntTy.InRange
+  rw [IntTy.max_eq, IntTy.lowest_eq]
+  constructor
+  · by_cases hT : (usualArith L R).signed = true
+    · simp only [hT, ite_true]; omega
+    · have hT' : (usualArith L R).signed = false := by simpa using hT
+      have := nonneg_of_unsigned hT' hlT
+      have := nonneg_of_unsigned hT' hrT
+      simp only [hT', Bool.false_eq_true, ite_false]; exact s1 ‹_› ‹_›
+  · by_cases he : l * r = 2^L.digits * 2^R.digits
+    · have ⟨e1, e2⟩ := b3 he
+      have hLs : L.signed = true := by
+        by_cases h : L.signed = true
+        · exact h
+        · have := h3 (by simpa using h); omega
+      have hRs : R.signed = true := by
+        by_cases h : R.signed = true
+        · exact h
+        · have := h3' (by simpa using h); omega
+      have hlt : L.digits + R.digits < (usualArith L R).digits := by
+        have : L.digits + R.digits ≠ (usualArith L R).digits := fun h => hg ⟨hLs, hRs, h⟩
+        omega
+      have hp' := two_pow_le (show L.digits + R.digits + 1 ≤ (usualArith L R).digits by omega)
+      rw [two_pow_succ, two_pow_add] at hp'
+      have := Int.mul_pos hpa hpb
+      omega
+    · omega
+
+
+/-! ## the portable predicates on operands the common type holds unchanged -/
+
+section portable
+variable {L R : IntTy} (hL : 1 ≤ L.bits) (hR : 1 ≤ R.bits) {l r : Int} (hl : L.InRange l) (hr : R.InRange r)
+  (hlT : (usualArith L R).InRange l) (hrT : (usualArith L R).InRange r)
+include hL hR hl hr hlT hrT
+
+theorem add_pos_eq :
+    isOverflowBin .add true (L, l) (R, r) = .ok (decide (l + r > (usualArith L R).max)) := by
+  have hT1 : 1 ≤ (usualArith L R).bits := by have := usualArith_bits_ge L R; omega
+  have h0 := zero_le_max (usualArith L R)
+  have hl1 := hlT.1; have hl2 := hlT.2; have hr1 := hrT.1; have hr2 := hrT.2
+  have hTR := (usualArith_absorb L R).2.1
+  have hTT := (usualArith_absorb L R).2.2.2.2
+  simp only [isOverflowBin, binResultTy, posDigits, tmax, convert, cmp_zero_same hL _ hl, cmp_zero_same hR _ hr,
+    cmpInt, IntTy.wrap_id hT1 hlT]
+  by_cases hd : max L.digits R.digits + 1 > (usualArith L R).digits
+  · simp only [hd, decide_true, andThen, ite_true]
+    by_cases h1 : l > 0
+    · by_cases h2 : r > 0
+      · have he : (usualArith L R).InRange ((usualArith L R).max - r) := ⟨by omega, by omega⟩
+        have hi : l > (usualArith L R).max - r ↔ l + r > (usualArith L R).max := by omega
+        simp only [h1, h2, decide_true, ite_true, cSub_ev hTR hT1 (max_inRange _) hrT he, Res.bind_ok,
+          Res.pure_eq, cCmp_ev hTT hT1 .gt hlT he, cmpInt, hi]
+      · have := hlT.2
+        have : ¬ l + r > (usualArith L R).max := by omega
+        simp only [h1, h2, decide_true, decide_false, ite_true, Bool.false_eq_true, ite_false, this]
+    · have := hrT.2
+      have : ¬ l + r > (usualArith L R).max := by omega
+      simp only [h1, decide_false, Bool.false_eq_true, ite_false, this]
+  · have := add_le_max_of_digits hl hr hd
+    have : ¬ l + r > (usualArith L R).max := by omega
+    simp only [hd, decide_false, andThen, Bool.false_eq_true, ite_false, this]
+
+theorem add_neg_eq :
+    isOverflowBin .add false (L, l) (R, r) = .ok (decide (l + r < (usualArith L R).lowest)) := by
+  have hT1 : 1 ≤ (usualArith L R).bits := by have := usualArith_bits_ge L R; omega
+  have h0 := zero_le_max (usualArith L R)
+  have hl1 := hlT.1; have hl2 := hlT.2; have hr1 := hrT.1; have hr2 := hrT.2
+  have hTR := (usualArith_absorb L R).2.1
+  have hTT := (usualArith_absorb L R).2.2.2.2
+  simp only [isOverflowBin, binResultTy, posDigits, tlow, convert, cmp_zero_same hL _ hl, cmp_zero_same hR _ hr,
+    cmpInt, IntTy.wrap_id hT1 hlT]
+  by_cases hd : max L.digits R.digits + 1 > (usualArith L R).digits
+  · simp only [hd, decide_true, andThen, ite_true]
+    by_cases h1 : l < 0
+    · by_cases h2 : r < 0
+      · have he : (usualArith L R).InRange ((usualArith L R).lowest - r) := ⟨by omega, by have := hrT.1; omega⟩
+        have hi : l < (usualArith L R).lowest - r ↔ l + r < (usualArith L R).lowest := by omega
+        simp only [h1, h2, decide_true, ite_true, cSub_ev hTR hT1 (lowest_inRange _) hrT he, Res.bind_ok,
+          Res.pure_eq, cCmp_ev hTT hT1 .lt hlT he, cmpInt, hi]
+      · have := hlT.1
+        have : ¬ l + r < (usualArith L R).lowest := by omega
+        simp only [h1, h2, decide_true, decide_false, ite_true, Bool.false_eq_true, ite_false, this]
+    · have := hrT.1
+      have : ¬ l + r < (usualArith L R).lowest := by omega
+      simp only [h1, decide_false, Bool.false_eq_true, ite_false, this]
+  · have := add_ge_lowest_of_digits hl hr hlT hrT hd
+    have : ¬ l + r < (usualArith L R).lowest := by omega
+    simp only [hd, decide_false, andThen, Bool.false_eq_true, ite_false, this]
+
+theorem sub_pos_eq :
+    isOverflowBin .sub true (L, l) (R, r) = .ok (decide (l - r > (usualArith L R).max)) := by
+  have hT1 : 1 ≤ (usualArith L R).bits := by have := usualArith_bits_ge L R; omega
+  have h0 := zero_le_max (usualArith L R)
+  have hl1 := hlT.1; have hl2 := hlT.2; have hr1 := hrT.1; have hr2 := hrT.2
+  have hlm := lowest_max (usualArith L R)
+  have hTR := (usualArith_absorb L R).2.1
+  have hLT := (usualArith_absorb L R).2.2.1
+  simp only [isOverflowBin, binResultTy, posDigits, tmax, cmp_zero_same hR _ hr, cmpInt]
+  by_cases hd : max L.digits (negDigits R) + 1 > (usualArith L R).digits
+  · simp only [hd, decide_true, andThen, ite_true]
+    by_cases h2 : r < 0
+    · have hTs : (usualArith L R).signed = true := by
+        by_cases h : (usualArith L R).signed = true
+        · exact h
+        · have := nonneg_of_unsigned (by simpa using h) hrT; omega
+      simp only [hTs, ite_true] at hlm
+      have he : (usualArith L R).InRange ((usualArith L R).max + r) := ⟨by have := hrT.1; omega, by omega⟩
+      have hi : l > (usualArith L R).max + r ↔ l - r > (usualArith L R).max := by omega
+      simp only [h2, decide_true, ite_true, cAdd_ev hTR hT1 (max_inRange _) hrT he, Res.bind_ok,
+        Res.pure_eq, cCmp_ev hLT hT1 .gt hlT he, cmpInt, hi]
+    · have := hlT.2
+      have : ¬ l - r > (usualArith L R).max := by omega
+      simp only [h2, decide_false, Bool.false_eq_true, ite_false, this]
+  · have := sub_le_max_of_digits hl hr hd
+    have : ¬ l - r > (usualArith L R).max := by omega
+    simp only [hd, decide_false, andThen, Bool.false_eq_true, ite_false, this]
+
+theorem sub_neg_eq :
+    isOverflowBin .sub false (L, l) (R, r) = .ok (decide (l - r < (usualArith L R).lowest)) := by
+  have hT1 : 1 ≤ (usualArith L R).bits := by have := usualArith_bits_ge L R; omega
+  have h0 := zero_le_max (usualArith L R)
+  have hl1 := hlT.1; have hl2 := hlT.2; have hr1 := hrT.1; have hr2 := hrT.2
+  have hlm := lowest_max (usualArith L R)
+  have hTR := (usualArith_absorb L R).2.1
+  have hLT := (usualArith_absorb L R).2.2.1
+  have hz : (promote R).InRange 0 := by have := zero_le_max (promote R); exact ⟨by omega, by omega⟩
+  simp only [isOverflowBin, binResultTy, posDigits, tlow, cmp_lit hR _ hr hz, cmpInt]
+  by_cases hd : max L.digits R.digits + 1 > (usualArith L R).digits
+  · simp only [hd, decide_true, andThen, ite_true]
+    by_cases h2 : r ≥ 0
+    · have he : (usualArith L R).InRange ((usualArith L R).lowest + r) := by
+        refine ⟨by omega, ?_⟩
+        have := hrT.2
+        split at hlm <;> omega
+      have hi : l < (usualArith L R).lowest + r ↔ l - r < (usualArith L R).lowest := by omega
+      simp only [h2, decide_true, ite_true, cAdd_ev hTR hT1 (lowest_inRange _) hrT he, Res.bind_ok,
+        Res.pure_eq, cCmp_ev hLT hT1 .lt hlT he, cmpInt, hi]
+    · have := hlT.1
+      have : ¬ l - r < (usualArith L R).lowest := by omega
+      simp only [h2, decide_false, Bool.false_eq_true, ite_false, this]
+  · have := sub_ge_lowest_of_digits hl hr hd
+    have : ¬ l - r < (usualArith L R).lowest := by omega
+    simp only [hd, decide_false, andThen, Bool.false_eq_true, ite_false, this]
+
+end portable
+
+section portable_mul
+variable {L R : IntTy} (hL : 1 ≤ L.bits) (hR : 1 ≤ R.bits) {l r : Int} (hl : L.InRange l) (hr : R.InRange r)
+  (hlT : (usualArith L R).InRange l) (hrT : (usualArith L R).InRange r) (hg : ¬ MulGuardExact L R)
+include hL hR hl hr hlT hrT hg
+
+theorem mul_pos_eq :
+    isOverflowBin .mul true (L, l) (R, r) = .ok (decide (l * r > (usualArith L R).max)) := by
+  have h32 := usualArith_bits_ge L R
+  have hT1 : 1 ≤ (usualArith L R).bits := by omega
+  have h0 := zero_le_max (usualArith L R)
+  have hl1 := hlT.1; have hl2 := hlT.2; have hr1 := hrT.1; have hr2 := hrT.2
+  have hlm := lowest_max (usualArith L R)
+  have hTR := (usualArith_absorb L R).2.1
+  have hTL := (usualArith_absorb L R).2.2.2.1
+  have ⟨s1, s2, s3, s4⟩ := mul_sign_facts l r
+  simp only [isOverflowBin, binResultTy, posDigits, tmax, cmp_zero_same hL _ hl, cmp_zero_same hR _ hr, cmpInt]
+  by_cases hd : L.digits + R.digits > (usualArith L R).digits
+  · simp only [hd, decide_true, andThen, ite_true]
+    have hov : ∀ r : Int, ¬((usualArith L R).max = -(usualArith L R).max - 1 ∧ r = -1) := by intro r; omega
+    have hov' : ∀ r : Int, ¬((usualArith L R).signed = true ∧ (usualArith L R).max = (usualArith L R).lowest ∧ r = -1) := by
+      intro r ⟨h1, h2, _⟩; simp only [h1, ite_true] at hlm; omega
+    by_cases h1 : l > 0
+    · by_cases h2 : r > 0
+      · have hq := tdiv_inRange h32 (max_inRange _) hrT (by omega) (hov r)
+        simp only [h1, h2, decide_true, ite_true, cDiv_ev hTR hT1 (max_inRange _) hrT (by omega) (hov' r) hq,
+          Res.bind_ok, Res.pure_eq, cCmp_ev hTL hT1 .lt hq hlT, cmpInt, mul_test_pp h0.2 h2]
+      · have := s3 (by omega) (by omega)
+        have : ¬ l * r > (usualArith L R).max := by omega
+        simp only [h1, h2, decide_true, decide_false, ite_true, Bool.false_eq_true, ite_false, this]
+    · by_cases h2 : r < 0
+      · have hq := tdiv_inRange h32 (max_inRange _) hrT (by omega) (hov r)
+        simp only [h1, h2, decide_true, decide_false, ite_true, Bool.false_eq_true, ite_false,
+          cDiv_ev hTR hT1 (max_inRange _) hrT (by omega) (hov' r) hq,
+          Res.bind_ok, Res.pure_eq, cCmp_ev hTL hT1 .gt hq hlT, cmpInt, mul_test_nn h0.2 h2]
+      · have := s4 (by omega) (by omega)
+        have : ¬ l * r > (usualArith L R).max := by omega
+        simp only [h1, h2, decide_false, Bool.false_eq_true, ite_false, this]
+  · have := (mul_inRange_of_digits hl hr hlT hrT hg hd).2
+    have : ¬ l * r > (usualArith L R).max := by omega
+    simp only [hd, decide_false, andThen, Bool.false_eq_true, ite_false, this]
+
+theorem mul_neg_eq :
+    isOverflowBin .mul false (L, l) (R, r) = .ok (decide (l * r < (usualArith L R).lowest)) := by
+  have h32 := usualArith_bits_ge L R
+  have hT1 : 1 ≤ (usualArith L R).bits := by omega
+  have h0 := zero_le_max (usualArith L R)
+  have hl1 := hlT.1; have hl2 := hlT.2; have hr1 := hrT.1; have hr2 := hrT.2
+  have hlm := lowest_max (usualArith L R)
+  have hTR := (usualArith_absorb L R).2.1
+  have hTL := (usualArith_absorb L R).2.2.2.1
+  have ⟨s1, s2, s3, s4⟩ := mul_sign_facts l r
+  simp only [isOverflowBin, binResultTy, posDigits, tlow, cmp_zero_same hL _ hl, cmp_zero_same hR _ hr, cmpInt]
+  by_cases hd : L.digits + R.digits > (usualArith L R).digits
+  · simp only [hd, decide_true, andThen, ite_true]
+    by_cases h1 : l < 0
+    · by_cases h2 : r > 0
+      · have hov : ¬((usualArith L R).lowest = -(usualArith L R).max - 1 ∧ r = -1) := by omega
+        have hov' : ¬((usualArith L R).signed = true ∧ (usualArith L R).lowest = (usualArith L R).lowest ∧ r = -1) := by omega
+        have hq := tdiv_inRange h32 (lowest_inRange _) hrT (by omega) hov
+        simp only [h1, h2, decide_true, ite_true, cDiv_ev hTR hT1 (lowest_inRange _) hrT (by omega) hov' hq,
+          Res.bind_ok, Res.pure_eq, cCmp_ev hTL hT1 .gt hq hlT, cmpInt, mul_test_np h0.1 h2]
+      · have := s2 (by omega) (by omega)
+        have : ¬ l * r < (usualArith L R).lowest := by omega
+        simp only [h1, h2, decide_true, decide_false, ite_true, Bool.false_eq_true, ite_false, this]
+    · by_cases h2 : r < 0
+      · have hRs : R.signed = true := by
+          by_cases h : R.signed = true
+          · exact h
+          · have := nonneg_of_unsigned (by simpa using h) hr; omega
+        simp only [h1, h2, decide_true, decide_false, ite_true, Bool.false_eq_true, ite_false,
+          cmp_lit hR .ne hr (minus_one_inRange hRs), cmpInt]
+        by_cases h3 : r = -1
+        · subst h3
+          have hTs : (usualArith L R).signed = true := by
+            by_cases h : (usualArith L R).signed = true
+            · exact h
+            · have := nonneg_of_unsigned (by simpa using h) hrT; omega
+          simp only [hTs, ite_true] at hlm
+          have : ¬ l * -1 < (usualArith L R).lowest := by omega
+          simp only [ne_eq, not_true_eq_false, decide_false, Bool.false_eq_true, ite_false, this]
+        · have hov : ¬((usualArith L R).lowest = -(usualArith L R).max - 1 ∧ r = -1) := by omega
+          have hov' : ¬((usualArith L R).signed = true ∧ (usualArith L R).lowest = (usualArith L R).lowest ∧ r = -1) := by omega
+          have hq := tdiv_inRange h32 (lowest_inRange _) hrT (by omega) hov
+          simp only [ne_eq, h3, not_false_eq_true, decide_true, ite_true,
+            cDiv_ev hTR hT1 (lowest_inRange _) hrT (by omega) hov' hq,
+            Res.bind_ok, Res.pure_eq, cCmp_ev hTL hT1 .lt hq hlT, cmpInt, mul_test_pn h0.1 h2]
+      · have := s1 (by omega) (by omega)
+        have : ¬ l * r < (usualArith L R).lowest := by omega
+        simp only [h1, h2, decide_false, Bool.false_eq_true, ite_false, this]
+  · have := (mul_inRange_of_digits hl hr hlT hrT hg hd).1
+    have : ¬ l * r < (usualArith L R).lowest := by omega
+    simp only [hd, decide_false, andThen, Bool.false_eq_true, ite_false, this]
+
+end portable_mul
+
+/-! ## the portable path assembled -/
+
+section portable_all
+variable {tag : OvTag} (ht : tag ≠ .nat) {L R : IntTy} (hL : 1 ≤ L.bits) (hR : 1 ≤ R.bits) {l r : Int}
+  (hl : L.InRange l) (hr : R.InRange r)
+  (hlT : (usualArith L R).InRange l) (hrT : (usualArith L R).InRange r)
+include ht hL hR hl hr hlT hrT
+
+theorem portable_add_fits :
+    checkedBin .portable tag .add (L, l) (R, r) = checkedWant tag (usualArith L R) (l + r) := by
+  have htag : (tag == OvTag.nat) = false := by simpa using ht
+  have hT1 : 1 ≤ (usualArith L R).bits := by have := usualArith_bits_ge L R; omega
+  simp only [checkedBin, htag, hasBuiltin_portable, binResultTy, Bool.false_eq_true, ite_false,
+    add_pos_eq hL hR hl hr hlT hrT, add_neg_eq hL hR hl hr hlT hrT, Res.bind_ok]
+  by_cases hp : l + r > (usualArith L R).max
+  · simp only [hp, decide_true, ite_true]; exact (want_pos ht hp).symm
+  · by_cases hn : l + r < (usualArith L R).lowest
+    · simp only [hp, hn, decide_true, decide_false, Bool.false_eq_true, ite_false, ite_true, Res.bind_ok]
+      exact (want_neg ht hn).symm
+    · have he : (usualArith L R).InRange (l + r) := ⟨by omega, by omega⟩
+      simp only [hp, hn, decide_false, Bool.false_eq_true, ite_false, Res.bind_ok, cAdd_ev rfl hT1 hlT hrT he]
+      exact (want_in he).symm
+
+theorem portable_sub_fits :
+    checkedBin .portable tag .sub (L, l) (R, r) = checkedWant tag (usualArith L R) (l - r) := by
+  have htag : (tag == OvTag.nat) = false := by simpa using ht
+  have hT1 : 1 ≤ (usualArith L R).bits := by have := usualArith_bits_ge L R; omega
+  simp only [checkedBin, htag, hasBuiltin_portable, binResultTy, Bool.false_eq_true, ite_false,
+    sub_pos_eq hL hR hl hr hlT hrT, sub_neg_eq hL hR hl hr hlT hrT, Res.bind_ok]
+  by_cases hp : l - r > (usualArith L R).max
+  · simp only [hp, decide_true, ite_true]; exact (want_pos ht hp).symm
+  · by_cases hn : l - r < (usualArith L R).lowest
+    · simp only [hp, hn, decide_true, decide_false, Bool.false_eq_true, ite_false, ite_true, Res.bind_ok]
+      exact (want_neg ht hn).symm
+    · have he : (usualArith L R).InRange (l - r) := ⟨by omega, by omega⟩
+      simp only [hp, hn, decide_false, Bool.false_eq_true, ite_false, Res.bind_ok, cSub_ev rfl hT1 hlT hrT he]
+      exact (want_in he).symm
+
+theorem portable_mul_fits (hg : ¬ MulGuardExact L R) :
+    checkedBin .portable tag .mul (L, l) (R, r) = checkedWant tag (usualArith L R) (l * r) := by
+  have htag : (tag == OvTag.nat) = false := by simpa using ht
+  have hT1 : 1 ≤ (usualArith L R).bits := by have := usualArith_bits_ge L R; omega
+  simp only [checkedBin, htag, hasBuiltin_portable, binResultTy, Bool.false_eq_true, ite_false,
+    mul_pos_eq hL hR hl hr hlT hrT hg, mul_neg_eq hL hR hl hr hlT hrT hg, Res.bind_ok]
+  by_cases hp : l * r > (usualArith L R).max
+  · simp only [hp, decide_true, ite_true]; exact (want_pos ht hp).symm
+  · by_cases hn : l * r < (usualArith L R).lowest
+    · simp only [hp, hn, decide_true, decide_false, Bool.false_eq_true, ite_false, ite_true, Res.bind_ok]
+      exact (want_neg ht hn).symm
+    · have he : (usualArith L R).InRange (l * r) := ⟨by omega, by omega⟩
+      simp only [hp, hn, decide_false, Bool.false_eq_true, ite_false, Res.bind_ok, cMul_ev rfl hT1 hlT hrT he]
+      exact (want_in he).symm
+
+end portable_all
+
+/-- widths that are multiples of 8 (all built-in types) never hit the weak multiplication guard -/
+theorem not_mulGuardExact_of_bytes {L R : IntTy} (hL : 8 ∣ L.bits) (hR : 8 ∣ R.bits) (hL0 : 1 ≤ L.bits)
+    (hR0 : 1 ≤ R.bits) : ¬ MulGuardExact L R := by
+  intro ⟨h1, h2, h3⟩
+  rw [usualArith_key] at h3
+  have e1 : L.digits = L.bits - 1 := by simp [IntTy.digits, h1]
+  have e2 : R.digits = R.bits - 1 := by simp [IntTy.digits, h2]
+  have p1 : (promote L).digits = (promote L).bits - 1 := by simp [IntTy.digits, promote_signed_of_signed h1]
+  have p2 : (promote R).digits = (promote R).bits - 1 := by simp [IntTy.digits, promote_signed_of_signed h2]
+  have q1 : (promote L).bits = if L.bits < 32 then 32 else L.bits := by unfold promote; split <;> simp [i32]
+  have q2 : (promote R).bits = if R.bits < 32 then 32 else R.bits := by unfold promote; split <;> simp [i32]
+  have k1 : key (promote L) = 2 * (promote L).bits := by simp [key, promote_signed_of_signed h1]
+  have k2 : key (promote R) = 2 * (promote R).bits := by simp [key, promote_signed_of_signed h2]
+  obtain ⟨a, ha⟩ := hL
+  obtain ⟨b, hb⟩ := hR
+  split at h3 <;> split at q1 <;> split at q2 <;> omega
+
+
+/-! ## integer facts used by the shift tests -/
+
+theorem shl_test_pos {l a b : Int} (ha : 0 < a) (hb : 0 < b) (hl : 0 < l) :
+    l / a ≠ 0 ↔ l * b > a * b - 1 := by
+  have h1 : 0 ≤ l / a := Int.ediv_nonneg (by omega) (by omega)
+  have h2 := Int.ediv_lt_iff_lt_mul (a := l) (b := 1) ha
+  have h3 := Int.mul_le_mul_right (a := b) (b := a) (c := l) hb
+  rw [Int.one_mul] at h2
+  omega
+
+theorem shl_test_neg {l a b : Int} (ha : 0 < a) (hb : 0 < b) (hl : l < 0) :
+    l / a ≠ -1 ↔ l * b < -(a * b) := by
+  have h1 : l / a < 0 := Int.ediv_neg_of_neg_of_pos hl ha
+  have h2 := Int.ediv_lt_iff_lt_mul (a := l) (b := -1) ha
+  have h3 := Int.mul_lt_mul_right (a := b) (b := l) (c := -a) hb
+  rw [Int.neg_mul, Int.one_mul] at h2
+  rw [Int.neg_mul] at h3
+  omega
+
+theorem shr_pos_bounds {l a : Int} (ha : 0 < a) (hl : 0 ≤ l) : 0 ≤ l / a ∧ l / a ≤ l := by
+  have h1 : 0 ≤ l / a := Int.ediv_nonneg hl (by omega)
+  have ⟨e1, e2, e3⟩ := ediv_emod_facts l a ha
+  have : l / a ≤ a * (l / a) := by
+    have := Int.mul_le_mul_of_nonneg_right (show 1 ≤ a by omega) h1
+    omega
+  omega
+
+theorem shr_neg_bounds {l a : Int} (ha : 0 < a) (hl : l < 0) : l ≤ l / a ∧ l / a ≤ -1 := by
+  have h1 : l / a < 0 := Int.ediv_neg_of_neg_of_pos hl ha
+  refine ⟨Int.le_ediv_of_mul_le ha ?_, by omega⟩
+  have := Int.mul_le_mul_of_nonneg_right (show 1 ≤ a by omega) (show 0 ≤ -l by omega)
+  rw [Int.mul_neg, Int.mul_neg, Int.mul_comm a l] at this
+  omega
+
+theorem mul_pow_ge {l b : Int} (hb : 0 < b) (hl : 1 ≤ l) : b ≤ l * b := by
+  have := Int.mul_le_mul_of_nonneg_right hl (show 0 ≤ b by omega); omega
+
+theorem mul_pow_le {l b : Int} (hb : 0 < b) (hl : l ≤ -1) : l * b ≤ -b := by
+  have := Int.mul_le_mul_of_nonneg_right hl (show 0 ≤ b by omega); omega
+
+theorem mul_pow_le2 {l b : Int} (hb : 0 < b) (hl : l ≤ -2) : l * b ≤ -2 * b := by
+  exact Int.mul_le_mul_of_nonneg_right hl (show 0 ≤ b by omega)
+
+
+/-! ## left shift -/
+
+theorem usualArith_i32_left (A : IntTy) : usualArith i32 A = promote A := by
+  rw [usualArith_key]
+  have := key_promote_ge A
+  have h64 : key (promote i32) = 64 := by decide
+  split
+  · apply key_inj; omega
+  · rfl
+
+theorem cShr_ev {A B : IntTy} {v : Int} {k : Nat} (hk : k < (promote A).bits) :
+    cBin .shr (A, v) (B, (k : Int)) = .ok (promote A, v / 2^k) := by
+  have : ¬((k : Int) < 0 ∨ (k : Int) ≥ (promote A).bits) := by omega
+  simp only [cBin, this, ite_false, Int.toNat_natCast]
+
+theorem cShl_ev {A B : IntTy} {v : Int} {k : Nat} (hk : k < (promote A).bits) :
+    cBin .shl (A, v) (B, (k : Int)) = .ok (promote A, (promote A).wrap (v * 2^k)) := by
+  have : ¬((k : Int) < 0 ∨ (k : Int) ≥ (promote A).bits) := by omega
+  simp only [cBin, this, ite_false, Int.toNat_natCast]
+
+theorem promote_bits_le_int {L : IntTy} (hw : L.bits ≤ 2147483647) : (promote L).bits ≤ 2147483647 := by
+  unfold promote; split
+  · simp [i32]
+  · exact hw
+
+section shl
+variable {L R : IntTy} (hL : 1 ≤ L.bits) (hR : 1 ≤ R.bits) (hw : L.bits ≤ 2147483647) {l : Int} {j : Nat}
+  (hl : L.InRange l) (hr : R.InRange (j : Int))
+include hL hR hw hl hr
+
+theorem shl_pos_eq :
+    isOverflowBin .shl true (L, l) (R, (j : Int)) = .ok (decide (l * 2^j > (promote L).max)) := by
+  have hT1 := promote_bits_ge hL
+  have hlT := promote_inRange hL hl
+  have hl1 := hlT.1; have hl2 := hlT.2
+  have hrP := promote_inRange hR hr
+  have hPR1 := promote_bits_ge hR
+  have h0 := zero_le_max (promote L)
+  have h0R := zero_le_max (promote R)
+  have hz : (promote L).InRange 0 := ⟨h0.1, h0.2⟩
+  have hz' : (promote (promote L)).InRange 0 := by rw [promote_promote]; exact hz
+  have hzR : (promote R).InRange 0 := ⟨h0R.1, h0R.2⟩
+  have hdb := digits_le_bits (promote L)
+  have hbits := promote_bits_le_int hw
+  have hR32 := (lo_hi (promote R) (promote_bits_ge32 R)).2
+  have hdR : (promote R).InRange ((promote L).digits : Int) := ⟨by omega, by omega⟩
+  have hpj := two_pow_pos j
+  have hmax := IntTy.max_eq (promote L)
+  simp only [isOverflowBin, binResultTy, posDigits, cmp_lit hL .gt hl hz, cmp_lit hR .gt hr hzR,
+    cmp_lit hR .lt hr hdR, cmpInt, andThen]
+  by_cases h1 : l > 0
+  · by_cases h2 : (j : Int) > 0
+    · by_cases h3 : (j : Int) < (promote L).digits
+      · have hk : (promote R).InRange (((promote L).digits : Int) - j) := ⟨by omega, by omega⟩
+        have hsub := cSub_ev (usualArith_i32_left R) hPR1 hdR hrP hk
+        have ek : ((promote L).digits : Int) - j = (((promote L).digits - j : Nat) : Int) := by omega
+        have hkb : (promote L).digits - j < (promote L).bits := by omega
+        have hpk := two_pow_pos ((promote L).digits - j)
+        have ⟨b1, b2⟩ := shr_pos_bounds (l := l) hpk (by omega)
+        have hs : (promote L).InRange (l / 2^((promote L).digits - j)) := ⟨by omega, by omega⟩
+        have e2 : (2:Int)^(promote L).digits = 2^((promote L).digits - j) * 2^j := by
+          rw [← two_pow_add]; congr 1; omega
+        have ht := shl_test_pos (l := l) hpk hpj h1
+        rw [← e2, ← hmax] at ht
+        simp only [h1, h2, h3, decide_true, ite_true, lit, hsub, Res.bind_ok, ek, cShr_ev hkb, Res.pure_eq]
+        rw [show ((i32, (0:Int)) : TV) = lit 0 from rfl, cmp_lit hT1 .ne hs hz']
+        simp only [cmpInt, ht]
+      · have hge : (promote L).digits ≤ j := by omega
+        have := two_pow_le hge
+        have := mul_pow_ge hpj (show 1 ≤ l by omega)
+        have : l * 2^j > (promote L).max := by omega
+        simp only [h1, h2, h3, decide_true, decide_false, ite_true, Bool.false_eq_true, ite_false, this]
+    · have hj0 : j = 0 := by omega
+      subst hj0
+      have : ¬ l * 2^0 > (promote L).max := by simp; omega
+      simp only [h1, h2, decide_true, decide_false, ite_true, Bool.false_eq_true, ite_false, this]
+  · have := (mul_sign_facts l (2^j)).2.2.2 (by omega) (by omega)
+    have : ¬ l * 2^j > (promote L).max := by omega
+    simp only [h1, decide_false, Bool.false_eq_true, ite_false, this]
+
+theorem shl_neg_eq (hm : ¬(l = -1 ∧ j = (promote L).digits)) :
+    isOverflowBin .shl false (L, l) (R, (j : Int)) = .ok (decide (l * 2^j < (promote L).lowest)) := by
+  have hT1 := promote_bits_ge hL
+  have hlT := promote_inRange hL hl
+  have hl1 := hlT.1; have hl2 := hlT.2
+  have hrP := promote_inRange hR hr
+  have hPR1 := promote_bits_ge hR
+  have h0 := zero_le_max (promote L)
+  have h0R := zero_le_max (promote R)
+  have hzR : (promote R).InRange 0 := ⟨h0R.1, h0R.2⟩
+  have hdb := digits_le_bits (promote L)
+  have hbits := promote_bits_le_int hw
+  have hR32 := (lo_hi (promote R) (promote_bits_ge32 R)).2
+  have hdR : (promote R).InRange ((promote L).digits : Int) := ⟨by omega, by omega⟩
+  have hpj := two_pow_pos j
+  have hlow := IntTy.lowest_eq (promote L)
+  simp only [isOverflowBin, binResultTy, posDigits]
+  by_cases hLs : L.signed = true
+  · have hTs := promote_signed_of_signed hLs
+    have hm1 : (promote L).InRange (-1) := by
+      have := minus_one_inRange hLs; exact this
+    have hm1' : (promote (promote L)).InRange (-1) := by rw [promote_promote]; exact hm1
+    simp only [hTs, ite_true] at hlow
+    simp only [hLs, Bool.not_true, Bool.false_eq_true, ite_false, cmp_lit hL .lt hl (by
+      have := zero_le_max (promote L); exact ⟨this.1, this.2⟩), cmp_lit hR .gt hr hzR,
+      cmp_lit hR .lt hr hdR, cmpInt, andThen]
+    by_cases h1 : l < 0
+    · by_cases h2 : (j : Int) > 0
+      · by_cases h3 : (j : Int) < (promote L).digits
+        · have hk : (promote R).InRange (((promote L).digits : Int) - j) := ⟨by omega, by omega⟩
+          have hsub := cSub_ev (usualArith_i32_left R) hPR1 hdR hrP hk
+          have ek : ((promote L).digits : Int) - j = (((promote L).digits - j : Nat) : Int) := by omega
+          have hkb : (promote L).digits - j < (promote L).bits := by omega
+          have hpk := two_pow_pos ((promote L).digits - j)
+          have ⟨b1, b2⟩ := shr_neg_bounds (l := l) hpk h1
+          have hs : (promote L).InRange (l / 2^((promote L).digits - j)) := ⟨by omega, by omega⟩
+          have e2 : (2:Int)^(promote L).digits = 2^((promote L).digits - j) * 2^j := by
+            rw [← two_pow_add]; congr 1; omega
+          have ht := shl_test_neg (l := l) hpk hpj h1
+          rw [← e2, ← hlow] at ht
+          simp only [h1, h2, h3, decide_true, ite_true, lit, hsub, Res.bind_ok, ek, cShr_ev hkb, Res.pure_eq]
+          rw [show ((i32, (-1:Int)) : TV) = lit (-1) from rfl, cmp_lit hT1 .ne hs hm1']
+          simp only [cmpInt, ht]
+        · have hge : (promote L).digits ≤ j := by omega
+          have : l * 2^j < (promote L).lowest := by
+            by_cases hj : j = (promote L).digits
+            · have := mul_pow_le2 hpj (show l ≤ -2 by omega)
+              rw [hj] at this hpj ⊢; omega
+            · have := two_pow_le (show (promote L).digits + 1 ≤ j by omega)
+              rw [two_pow_succ] at this
+              have := mul_pow_le hpj (show l ≤ -1 by omega)
+              have := pow_digits_pos (promote L)
+              omega
+          simp only [h1, h2, h3, decide_true, decide_false, ite_true, Bool.false_eq_true, ite_false, this]
+      · have hj0 : j = 0 := by omega
+        subst hj0
+        have : ¬ l * 2^0 < (promote L).lowest := by simp; omega
+        simp only [h1, h2, decide_true, decide_false, ite_true, Bool.false_eq_true, ite_false, this]
+    · have := (mul_sign_facts l (2^j)).1 (by omega) (by omega)
+      have : ¬ l * 2^j < (promote L).lowest := by omega
+      simp only [h1, decide_false, Bool.false_eq_true, ite_false, this]
+  · have hLu : L.signed = false := by simpa using hLs
+    have := nonneg_of_unsigned hLu hl
+    have := (mul_sign_facts l (2^j)).1 (by omega) (by omega)
+    have : ¬ l * 2^j < (promote L).lowest := by omega
+    simp only [hLu, Bool.not_false, ite_true, this, decide_false]
+
+theorem checkedBin_shl_eq (path : Path) {tag : OvTag} (ht : tag ≠ .nat)
+    (hz : ¬(l = 0 ∧ j ≥ (promote L).bits)) (hm : ¬(l = -1 ∧ j = (promote L).digits)) :
+    checkedBin path tag .shl (L, l) (R, (j : Int)) = checkedWant tag (promote L) (l * 2^j) := by
+  have htag : (tag == OvTag.nat) = false := by simpa using ht
+  have hT1 := promote_bits_ge hL
+  have hlT := promote_inRange hL hl
+  have h0 := zero_le_max (promote L)
+  have hpj := two_pow_pos j
+  simp only [checkedBin, htag, hasBuiltin_shl, binResultTy, Bool.false_eq_true, ite_false,
+    shl_pos_eq hL hR hw hl hr, shl_neg_eq hL hR hw hl hr hm, Res.bind_ok]
+  by_cases hp : l * 2^j > (promote L).max
+  · simp only [hp, decide_true, ite_true]; exact (want_pos ht hp).symm
+  · by_cases hn : l * 2^j < (promote L).lowest
+    · simp only [hp, hn, decide_true, decide_false, Bool.false_eq_true, ite_false, ite_true, Res.bind_ok]
+      exact (want_neg ht hn).symm
+    · have he : (promote L).InRange (l * 2^j) := ⟨by omega, by omega⟩
+      have hjb : j < (promote L).bits := by
+        have hmax := IntTy.max_eq (promote L)
+        have hlow := IntTy.lowest_eq (promote L)
+        have hdb := digits_le_bits (promote L)
+        by_cases hl0 : l = 0
+        · omega
+        · by_cases hlp : l > 0
+          · by_cases hge : (promote L).digits ≤ j
+            · have := two_pow_le hge
+              have := mul_pow_ge hpj (show 1 ≤ l by omega)
+              omega
+            · omega
+          · have hTs : (promote L).signed = true := by
+              by_cases h : (promote L).signed = true
+              · exact h
+              · have := nonneg_of_unsigned (by simpa using h) hlT; omega
+            have hb := IntTy.bits_eq_digits_succ hTs hT1
+            simp only [hTs, ite_true] at hlow
+            by_cases hge : (promote L).digits + 1 ≤ j
+            · have := two_pow_le hge
+              rw [two_pow_succ] at this
+              have := mul_pow_le hpj (show l ≤ -1 by omega)
+              have := pow_digits_pos (promote L)
+              omega
+            · omega
+      simp only [hp, hn, decide_false, Bool.false_eq_true, ite_false, Res.bind_ok, cShl_ev hjb,
+        IntTy.wrap_id hT1 he]
+      exact (want_in he).symm
+
+end shl
+
+/-! ## totality (C07) -/
+
+/-- the three checked tags -/
+def Checked (tag : OvTag) : Prop := tag = .sat ∨ tag = .thr ∨ tag = .trp
+
+instance (tag : OvTag) : Decidable (Checked tag) := by unfold Checked; exact inferInstance
+
+theorem Checked.ne_nat {tag : OvTag} (h : Checked tag) : tag ≠ .nat := by
+  rcases h with h | h | h <;> subst h <;> decide
+
+theorem react_defined {tag : OvTag} (h : Checked tag) (pos : Bool) (T : IntTy) :
+    (react tag pos T).isDefined = true := by
+  rcases h with h | h | h <;> subst h <;> rfl
+
+def IsOk {α : Type} (x : Res α) : Prop := ∃ a, x = .ok a
+
+theorem isOk_ok {α : Type} (a : α) : IsOk (Res.ok a) := ⟨a, rfl⟩
+
+theorem andThen_isOk {a : Bool} {b : Res Bool} (h : a = true → IsOk b) : IsOk (andThen a b) := by
+  cases a
+  · exact ⟨false, rfl⟩
+  · exact h rfl
+
+theorem ite_isOk {α : Type} {c : Prop} [Decidable c] {x y : Res α} (hx : c → IsOk x) (hy : ¬c → IsOk y) :
+    IsOk (if c then x else y) := by
+  by_cases h : c
+  · simp only [h, ite_true]; exact hx h
+  · simp only [h, ite_false]; exact hy h
+
+/-- the tagged operator on the portable branch is defined as soon as both tests return and the
+built-in operator is defined whenever neither test fires -/
+theorem checkedBin_defined {path : Path} {tag : OvTag} (ht : Checked tag) {op : BinOp} {x y : TV}
+    (hB : hasBuiltin path op = false)
+    (hP : IsOk (isOverflowBin op true x y)) (hN : IsOk (isOverflowBin op false x y))
+    (hC : isOverflowBin op true x y = .ok false → isOverflowBin op false x y = .ok false →
+      (cBin op x y).isDefined = true) :
+    (checkedBin path tag op x y).isDefined = true := by
+  have htag : (tag == OvTag.nat) = false := by simpa using ht.ne_nat
+  obtain ⟨p, hp⟩ := hP
+  obtain ⟨n, hn⟩ := hN
+  simp only [checkedBin, htag, hB, hp, hn, Bool.false_eq_true, ite_false, Res.bind_ok]
+  cases p
+  · cases n
+    · simp only [Bool.false_eq_true, ite_false, Res.bind_ok]; exact hC hp hn
+    · simp only [Bool.false_eq_true, ite_false, ite_true, Res.bind_ok]; exact react_defined ht _ _
+  · simp only [ite_true]; exact react_defined ht _ _
+
+theorem arith_unsigned {T : IntTy} (hu : T.signed = false) (e : Int) : arith T e = .ok (T, T.wrap e) := by
+  simp [arith, hu]
+
+theorem cBin_unsigned_isOk {A B T : IntTy} (h : usualArith A B = T) (hu : T.signed = false) {op : BinOp}
+    (hop : op = .add ∨ op = .sub ∨ op = .mul) (a b : Int) : IsOk (cBin op (A, a) (B, b)) := by
+  rcases hop with e | e | e <;> subst e <;> simp only [cBin, h, arith_unsigned hu] <;> exact isOk_ok _
+
+theorem cDiv_unsigned_isOk {A B T : IntTy} (h : usualArith A B = T) (hu : T.signed = false) {a b : Int}
+    (hb : T.wrap b ≠ 0) : IsOk (cBin .div (A, a) (B, b)) := by
+  simp only [cBin, h, hb, hu, arith_unsigned hu, ite_false, Bool.false_eq_true, false_and]
+  exact isOk_ok _
+
+theorem bind_isOk {α β : Type} {x : Res α} {f : α → Res β} (hx : IsOk x) (hf : ∀ a, IsOk (f a)) :
+    IsOk (x >>= f) := by
+  obtain ⟨a, rfl⟩ := hx
+  exact hf a
+
+theorem emod_ne_zero_of_small {r N : Int} (h1 : -N < r) (h2 : r < N) (h0 : r ≠ 0) : r % N ≠ 0 := by
+  intro h
+  have hd := Int.dvd_of_emod_eq_zero h
+  exact h0 (Int.eq_zero_of_dvd_of_natAbs_lt_natAbs hd (by omega))
+
+theorem usualArith_bits_ge_both (L R : IntTy) :
+    L.bits ≤ (usualArith L R).bits ∧ R.bits ≤ (usualArith L R).bits := by
+  have h1 := promote_bits_le L
+  have h2 := promote_bits_le R
+  rw [usualArith_key]
+  by_cases hk : key (promote R) ≤ key (promote L)
+  · simp only [hk, ite_true]
+    unfold key at hk
+    constructor
+    · exact h1
+    · split at hk <;> split at hk <;> omega
+  · simp only [hk, ite_false]
+    unfold key at hk
+    constructor
+    · split at hk <;> split at hk <;> omega
+    · exact h2
+
+/-- a non-zero operand stays non-zero when converted to the common type -/
+theorem wrap_ne_zero_right {L R : IntTy} (hR : 1 ≤ R.bits) {r : Int} (hr : R.InRange r) (h0 : r ≠ 0) :
+    (usualArith L R).wrap r ≠ 0 := by
+  have hT1 : 1 ≤ (usualArith L R).bits := by have := usualArith_bits_ge L R; omega
+  by_cases hfit : (usualArith L R).signed = false → R.signed = false
+  · rw [IntTy.wrap_id hT1 (fits_right hfit hr)]; exact h0
+  · have hTu : (usualArith L R).signed = false := by
+      by_cases h : (usualArith L R).signed = false
+      · exact h
+      · exact absurd (fun h' => absurd h' h) hfit
+    have hRs : R.signed = true := by
+      by_cases h : R.signed = true
+      · exact h
+      · exact absurd (fun _ => by simpa using h) hfit
+    have ⟨r1, r2, _⟩ := range_digits hr
+    have hb := IntTy.bits_eq_digits_succ hRs hR
+    have := two_pow_le (show R.digits + 1 ≤ (usualArith L R).bits by
+      have := (usualArith_bits_ge_both L R).2; omega)
+    rw [two_pow_succ] at this
+    have := pow_digits_pos R
+    simp only [IntTy.wrap, hTu, Bool.false_eq_true, ite_false]
+    exact emod_ne_zero_of_small (by omega) (by omega) h0
+
+
+theorem isOk_defined {α : Type} {x : Res α} (h : IsOk x) : x.isDefined = true := by
+  obtain ⟨a, rfl⟩ := h; rfl
+
+section total
+variable {tag : OvTag} (ht : Checked tag) {L R : IntTy} (hL : 1 ≤ L.bits) (hR : 1 ≤ R.bits) {l r : Int}
+  (hl : L.InRange l) (hr : R.InRange r)
+include hL hR hl hr
+
+/-- with an unsigned common type every portable test of `+ - *` returns (unsigned arithmetic
+wraps; the divisions inside the multiplication tests are guarded by `rhs ≠ 0`) -/
+theorem isOverflow_isOk_unsigned (hu : (usualArith L R).signed = false) {op : BinOp}
+    (hop : op = .add ∨ op = .sub ∨ op = .mul) (pos : Bool) :
+    IsOk (isOverflowBin op pos (L, l) (R, r)) := by
+  have hTR := (usualArith_absorb L R).2.1
+  have hdiv : r ≠ 0 → ∀ a, IsOk (cBin .div ((usualArith L R), a) (R, r)) :=
+    fun h0 a => cDiv_unsigned_isOk hTR hu (wrap_ne_zero_right hR hr h0)
+  have hgt : cCmp .gt (R, r) (zero R) = true → r ≠ 0 := by
+    rw [cmp_zero_same hR _ hr]; simp only [cmpInt, decide_eq_true_eq]; omega
+  have hlt : cCmp .lt (R, r) (zero R) = true → r ≠ 0 := by
+    rw [cmp_zero_same hR _ hr]; simp only [cmpInt, decide_eq_true_eq]; omega
+  rcases hop with e | e | e <;> subst e <;> cases pos <;>
+    simp only [isOverflowBin, binResultTy, tmax, tlow]
+  · -- add, negative
+    refine andThen_isOk fun _ => andThen_isOk fun _ => andThen_isOk fun _ =>
+      bind_isOk (cBin_unsigned_isOk hTR hu (Or.inr (Or.inl rfl)) _ _) fun _ => isOk_ok _
+  · refine andThen_isOk fun _ => andThen_isOk fun _ => andThen_isOk fun _ =>
+      bind_isOk (cBin_unsigned_isOk hTR hu (Or.inr (Or.inl rfl)) _ _) fun _ => isOk_ok _
+  · -- sub, negative
+    refine andThen_isOk fun _ => andThen_isOk fun _ =>
+      bind_isOk (cBin_unsigned_isOk hTR hu (Or.inl rfl) _ _) fun _ => isOk_ok _
+  · refine andThen_isOk fun _ => andThen_isOk fun _ =>
+      bind_isOk (cBin_unsigned_isOk hTR hu (Or.inl rfl) _ _) fun _ => isOk_ok _
+  · -- mul, negative
+    refine andThen_isOk fun _ => ite_isOk
+      (fun _ => andThen_isOk fun h => bind_isOk (hdiv (hgt h) _) fun _ => isOk_ok _)
+      (fun _ => andThen_isOk fun h => andThen_isOk fun _ => bind_isOk (hdiv (hlt h) _) fun _ => isOk_ok _)
+  · refine andThen_isOk fun _ => ite_isOk
+      (fun _ => andThen_isOk fun h => bind_isOk (hdiv (hgt h) _) fun _ => isOk_ok _)
+      (fun _ => andThen_isOk fun h => bind_isOk (hdiv (hlt h) _) fun _ => isOk_ok _)
+
+include ht
+
+theorem builtin_arith_defined {op : BinOp} (hop : op = .add ∨ op = .sub ∨ op = .mul) :
+    (checkedBin .builtin tag op (L, l) (R, r)).isDefined = true := by
+  rcases hop with e | e | e <;> subst e
+  · rw [builtin_add_eq ht.ne_nat hL hR hl hr]; exact want_defined ht _ _
+  · rw [builtin_sub_eq ht.ne_nat hL hR hl hr]; exact want_defined ht _ _
+  · rw [builtin_mul_eq ht.ne_nat hL hR hl hr]; exact want_defined ht _ _
+
+theorem portable_arith_defined {op : BinOp} (hop : op = .add ∨ op = .sub ∨ op = .mul)
+    (hg : op = .mul → ¬ MulGuardExact L R) :
+    (checkedBin .portable tag op (L, l) (R, r)).isDefined = true := by
+  by_cases hTs : (usualArith L R).signed = true
+  · have hlT : (usualArith L R).InRange l := fits_left (fun h => by rw [hTs] at h; cases h) hl
+    have hrT : (usualArith L R).InRange r := fits_right (fun h => by rw [hTs] at h; cases h) hr
+    rcases hop with e | e | e <;> subst e
+    · rw [portable_add_fits ht.ne_nat hL hR hl hr hlT hrT]; exact want_defined ht _ _
+    · rw [portable_sub_fits ht.ne_nat hL hR hl hr hlT hrT]; exact want_defined ht _ _
+    · rw [portable_mul_fits ht.ne_nat hL hR hl hr hlT hrT (hg rfl)]; exact want_defined ht _ _
+  · have hu : (usualArith L R).signed = false := by simpa using hTs
+    exact checkedBin_defined ht (hasBuiltin_portable _)
+      (isOverflow_isOk_unsigned hL hR hl hr hu hop true) (isOverflow_isOk_unsigned hL hR hl hr hu hop false)
+      (fun _ _ => isOk_defined (cBin_unsigned_isOk rfl hu hop _ _))
+
+/-- division under a checked tag is defined for every type pair, mixed signedness included -/
+theorem div_defined (path : Path) (hr0 : r ≠ 0) :
+    (checkedBin path tag .div (L, l) (R, r)).isDefined = true := by
+  have h32 := usualArith_bits_ge L R
+  have hT1 : 1 ≤ (usualArith L R).bits := by omega
+  have hLT : usualArith L (usualArith L R) = usualArith L R := (usualArith_absorb L R).2.2.1
+  have hlm := lowest_max (usualArith L R)
+  have h0 := zero_le_max (usualArith L R)
+  apply checkedBin_defined ht (hasBuiltin_div path)
+  · simp only [isOverflowBin, rbool]
+    exact ite_isOk (fun _ => andThen_isOk fun _ => isOk_ok _) (fun _ => isOk_ok _)
+  · simp only [isOverflowBin]; exact isOk_ok _
+  · intro hp _
+    by_cases hTs : (usualArith L R).signed = true
+    · have hlT : (usualArith L R).InRange l := fits_left (fun h => by rw [hTs] at h; cases h) hl
+      have hrT : (usualArith L R).InRange r := fits_right (fun h => by rw [hTs] at h; cases h) hr
+      simp only [hTs, ite_true] at hlm
+      have hov' : ¬((usualArith L R).signed = true ∧ l = (usualArith L R).lowest ∧ r = -1) := by
+        intro ⟨_, h1, h2⟩
+        have hLs : L.signed = true := by
+          by_cases h : L.signed = true
+          · exact h
+          · have := nonneg_of_unsigned (by simpa using h) hl; omega
+        have hRs : R.signed = true := by
+          by_cases h : R.signed = true
+          · exact h
+          · have := nonneg_of_unsigned (by simpa using h) hr; omega
+        simp only [isOverflowBin, binResultTy, hLs, ite_true, andThen, rbool, tlow,
+          cmp_lit hR .eq hr (minus_one_inRange hRs), cCmp_ev hLT hT1 .eq hlT (lowest_inRange _), cmpInt] at hp
+        simp [h1, h2] at hp
+      have hov : ¬(l = -(usualArith L R).max - 1 ∧ r = -1) := by
+        intro ⟨h1, h2⟩; exact hov' ⟨hTs, by omega, h2⟩
+      have hq := tdiv_inRange h32 hlT hrT hr0 hov
+      rw [cDiv_ev rfl hT1 hlT hrT hr0 hov' hq]; rfl
+    · have hu : (usualArith L R).signed = false := by simpa using hTs
+      exact isOk_defined (cDiv_unsigned_isOk rfl hu (wrap_ne_zero_right hR hr hr0))
+
+end total
+
+section total_shl
+variable {tag : OvTag} (ht : Checked tag) {L R : IntTy} (hL : 1 ≤ L.bits) (hR : 1 ≤ R.bits)
+  (hw : L.bits ≤ 2147483647) {l : Int} {j : Nat} (hl : L.InRange l) (hr : R.InRange (j : Int))
+include ht hL hR hw hl hr
+
+/-- `-1 << digits` is flagged (wrongly for C06, harmlessly for C07) -/
+theorem shl_neg_minus_one (hm : l = -1 ∧ j = (promote L).digits) :
+    isOverflowBin .shl false (L, l) (R, (j : Int)) = .ok true := by
+  obtain ⟨rfl, rfl⟩ := hm
+  have hLs : L.signed = true := by
+    by_cases h : L.signed = true
+    · exact h
+    · have := nonneg_of_unsigned (by simpa using h) hl; omega
+  have hrP := promote_inRange hR hr
+  have h0R := zero_le_max (promote R)
+  have hzR : (promote R).InRange 0 := ⟨h0R.1, h0R.2⟩
+  have h0 := zero_le_max (promote L)
+  have hz : (promote L).InRange 0 := ⟨h0.1, h0.2⟩
+  have hd31 : 31 ≤ (promote L).digits := by
+    have := promote_bits_ge32 L
+    have := IntTy.bits_eq_digits_succ (promote_signed_of_signed hLs) (promote_bits_ge hL)
+    omega
+  simp only [isOverflowBin, binResultTy, posDigits, hLs, Bool.not_true, Bool.false_eq_true, ite_false,
+    cmp_lit hL .lt hl hz, cmp_lit hR .gt hr hzR, cmp_lit hR .lt hr hrP, cmpInt, andThen]
+  have h1 : ((promote L).digits : Int) > 0 := by omega
+  have h2 : (promote L).digits ≠ 0 := by omega
+  simp [h1, h2]
+
+theorem shl_defined (path : Path) (hz : ¬(l = 0 ∧ j ≥ (promote L).bits)) :
+    (checkedBin path tag .shl (L, l) (R, (j : Int))).isDefined = true := by
+  by_cases hm : l = -1 ∧ j = (promote L).digits
+  · have htag : (tag == OvTag.nat) = false := by simpa using ht.ne_nat
+    simp only [checkedBin, htag, hasBuiltin_shl, binResultTy, Bool.false_eq_true, ite_false,
+      shl_pos_eq hL hR hw hl hr, shl_neg_minus_one ht hL hR hw hl hr hm, Res.bind_ok]
+    split
+    · exact react_defined ht _ _
+    · exact react_defined ht _ _
+  · rw [checkedBin_shl_eq hL hR hw hl hr path ht.ne_nat hz hm]; exact want_defined ht _ _
+
+end total_shl
+
+theorem neg_defined {tag : OvTag} (ht : Checked tag) {L : IntTy} (hL : 1 ≤ L.bits) {l : Int}
+    (hl : L.InRange l) : (checkedNeg tag (L, l)).isDefined = true := by
+  rw [checkedNeg_eq ht.ne_nat hL hl]; exact want_defined ht _ _
+
+theorem convert_defined {tag : OvTag} (ht : Checked tag) {S D : IntTy} (hS : 1 ≤ S.digits) (hD : 1 ≤ D.bits)
+    {v : Int} (hv : S.InRange v) : (checkedConvert tag D (S, v)).isDefined = true := by
+  rw [checkedConvert_eq ht.ne_nat hS hD hv]; exact want_defined ht _ _
+
+
 end Cnl.Overflow
